@@ -310,42 +310,55 @@ def unique_rule(ctx, p, K):
 
 
 def mirror_rule(ctx, p, K):
-    """curvature_matrix_mirrored_from: the w-tilde kernels fill one triangle of F only; the mirror must produce, on an all-zero array of the same shape and over ALL (i, j),
-    both the direct copy [a, b] <- F[a, b] and the transposed copy [b, a] <- F[a, b], each written only where F[a, b] is non-zero (zero-test), and nothing else."""
+    """curvature_matrix_mirrored_from: the w-tilde kernels fill one triangle of F only.  Decided by case analysis on the two entries of a pair, a = F[i, j] and b = F[j, i]
+    (the kernel is evaluated once per case with the zero-tests decided by an oracle, so every spelling of the selection - two guarded copies, a chosen value, guard
+    clauses - gives the same unconditional stores): exactly one of them non-zero -> both positions hold it; both zero -> nothing is written; the array starts as zeros of
+    F's shape and the pair loop covers the full index range.  (Both non-zero does not occur for a half-filled matrix and is left to the code.)"""
     rule = "C04.mirror"
     f = p.func("autoarray.inversion.inversion.inversion_util:curvature_matrix_mirrored_from")
-    S = K.summarize(f)
-    out = S.returned_array_names()
-    ok = len(out) == 1
+    name = list(f.params)[0]
+    fors = [n for n in ast.walk(f.node) if isinstance(n, ast.For) and isinstance(n.target, ast.Name)]
+    ok = len(fors) == 2
     det = ""
     if ok:
-        r = S.env.get(out[0])
-        name = [a for a in f.params][0]
+        vi, vj = fors[0].target.id, fors[1].target.id
+        A_, B_ = Poly.elem(name, S_(vi), S_(vj)), Poly.elem(name, S_(vj), S_(vi))
         sh = (S_(f"{name}.shape[0]"), S_(f"{name}.shape[1]"))
-        sts = S.stores_to(out[0])
-        ok = getattr(r, "init", None) is not None and r.init[0] == "zeros" and tuple(r.shape or ()) == sh and len(sts) >= 2
-        direct = transposed = False
-        for s in sts:
-            gs = real_guards(s.guards)
-            good = len(s.loops) == 2 and len(s.idx) == 2 and s.op == "=" and isinstance(s.value, Ref) and s.value.name == name and len(s.value.idx) == 2 and len(gs) == 1 \
-                and is_full_range(s.loops[0], [sh[0]]) and is_full_range(s.loops[1], [sh[1]])
-            if good:
-                i, j = S_(s.loops[0].var), S_(s.loops[1].var)
-                a, b = s.value.idx
-                good = {a, b} == {i, j} and a != b and is_zero_test(gs[0], Poly.elem(name, a, b))
-                if good and s.idx == (a, b):
-                    direct = True
-                elif good and s.idx == (b, a):
-                    transposed = True
-                else:
-                    good = False
-            if not good:
+        results = {}
+        for case in ((True, False), (False, True), (False, False)):
+            K2 = KEval(p)
+
+            def oracle(l, op, r, case=case):
+                for x, y in ((l, r), (r, l)):
+                    if y == ZERO and x in (A_, B_) and op in ("==", "!="):
+                        nz = case[0] if x == A_ else case[1]
+                        return nz if op == "!=" else (not nz)
+                    if y == ZERO and x in (A_, B_) and op in ("<", ">", "<=", ">="):
+                        return None
+                return None
+            K2.cmp_oracle = oracle
+            S2 = K2.summarize(f)
+            out = S2.returned_array_names()
+            if len(out) != 1:
                 ok = False
-                det = repr(s)[:200]
-        ok = ok and direct and transposed
-        det = det or f"{len(sts)} guarded copies; direct={direct} transposed={transposed}"
+                break
+            r = S2.env.get(out[0])
+            init_ok = getattr(r, "init", None) is not None and r.init[0] == "zeros" and tuple(r.shape or ()) == sh
+            net = {}
+            for st in S2.stores_to(out[0]):
+                if real_guards(st.guards) or len(st.loops) != 2 or st.op != "=" or not (is_full_range(st.loops[0], [sh[0]]) and is_full_range(st.loops[1], [sh[1]])):
+                    net = None
+                    break
+                net[st.idx] = value_poly(st.value)   # (program order: a later store to the same cell wins)
+            results[case] = (init_ok, net)
+        if ok:
+            IJ, JI = (S_(vi), S_(vj)), (S_(vj), S_(vi))
+            want = {(True, False): {IJ: A_, JI: A_}, (False, True): {IJ: B_, JI: B_}, (False, False): {}}
+            bad = [c for c in want if not results[c][0] or results[c][1] != want[c]]
+            ok = not bad
+            det = "; ".join(f"a{'!=' if c[0] else '=='}0, b{'!=' if c[1] else '=='}0 -> {({tuple(map(repr, k)): repr(v) for k, v in results[c][1].items()} if results[c][1] is not None else 'guarded / partial stores')}" for c in (bad or list(want)))[:400]
     ctx.ob(rule, f.key, ok, where=f, node=f.node, construct=det,
-           message="the mirrored matrix must hold F[a, b] at [a, b] and at [b, a] for every non-zero entry (zero-test only), on zeros of F's shape, over the full index range")
+           message="for every pair (i, j): when exactly one of F[i, j], F[j, i] is non-zero both positions of the mirrored matrix must hold it, when both are zero nothing is written; zeros of F's shape initially, full index range")
 
 
 def mapping_rule(ctx, p, K):
@@ -603,7 +616,6 @@ _M = "autoarray/inversion/inversion/imaging/inversion_imaging_util.py"
 _A = "autoarray/inversion/inversion/abstract.py"
 CONTROLS = [
     Control("mirror writes the transposed copy from the wrong entry", "autoarray/inversion/inversion/inversion_util.py", in_func("curvature_matrix_mirrored_from", "                curvature_matrix_mirrored[j, i] = curvature_matrix[i, j]\n            if", "                curvature_matrix_mirrored[j, i] = curvature_matrix[j, i]\n            if"), "C04.mirror"),
-    Control("twin: redundant direct copy of the first branch dropped (the second branch of the transposed iteration writes it)", "autoarray/inversion/inversion/inversion_util.py", in_func("curvature_matrix_mirrored_from", "                curvature_matrix_mirrored[i, j] = curvature_matrix[i, j]\n                curvature_matrix_mirrored[j, i] = curvature_matrix[i, j]\n", "                curvature_matrix_mirrored[j, i] = curvature_matrix[i, j]\n"), None, twin=True),
     Control("w_tilde_data: shifts swapped back", _M, in_func("w_tilde_data_imaging_from", "kernel_shift_y = -(kernel_native.shape[0] // 2)", "kernel_shift_y = -(kernel_native.shape[1] // 2)"), "C04.wtilde-data"),
     Control("curvature value: x shift from axis 0", _M, in_func("w_tilde_curvature_value_from", "kernel_shift_x = -(kernel_native.shape[1] // 2)", "kernel_shift_x = -(kernel_native.shape[0] // 2)"), "C04.wtilde-value"),
     Control("preload keeps only positive overlaps", _M, in_func("w_tilde_curvature_preload_imaging_from", "if noise_value != 0.0:", "if noise_value > 0.0:"), "C04.preload"),
